@@ -5,6 +5,7 @@ from contextlib import contextmanager
 from pathlib import Path
 from typing import Any
 
+import jax.numpy as jnp
 import orbax.checkpoint as checkpoint
 from hydra.utils import instantiate
 from loguru import logger
@@ -215,12 +216,30 @@ class CheckpointMixin(ABC):
         if step is None:
             raise ValueError(f"No checkpoints found in {checkpoint_dir}")
 
-        cp_state = load_manager.restore(
+        cp_state = self._restore_checkpoint_state(load_manager, step, template_cp_state)
+
+        self._restore_state_from_checkpoint(cp_state)
+
+    @staticmethod
+    def _restore_checkpoint_state(
+        manager: checkpoint.CheckpointManager, step: int, template_cp_state: Any
+    ) -> Any:
+        """Restore the state saved at a step, using a solver's state as template.
+
+        Orbax skips leaves that are None in the template. A freshly constructed
+        solver has no policy yet, so a policy stored in the checkpoint would be
+        dropped; it is read separately in that case.
+        """
+        cp_state = manager.restore(
             step,
             args=checkpoint.args.StandardRestore(template_cp_state),
         )
-
-        self._restore_state_from_checkpoint(cp_state)
+        if getattr(cp_state, "policy", None) is None:
+            stored = manager.restore(step, args=checkpoint.args.StandardRestore())
+            stored_policy = stored.get("policy") if isinstance(stored, dict) else None
+            if stored_policy is not None:
+                cp_state = cp_state.replace(policy=jnp.asarray(stored_policy))
+        return cp_state
 
     def _save_solver_config(self) -> None:
         """Save the solver config to the checkpoint directory."""
@@ -358,10 +377,7 @@ class CheckpointMixin(ABC):
             raise ValueError(f"No checkpoints found in {checkpoint_dir}")
 
         # Restore state
-        cp_state = manager.restore(
-            step,
-            args=checkpoint.args.StandardRestore(template_cp_state),
-        )
+        cp_state = cls._restore_checkpoint_state(manager, step, template_cp_state)
 
         # Restore runtime state
         solver._restore_state_from_checkpoint(cp_state)
